@@ -1040,7 +1040,7 @@ impl Check for WCheck {
             plan.horizon_ms = t + 1_000;
             plan.actions.sort_by_key(|a| a.t);
         }
-        if self.prop == "C17" {
+        if self.prop == "C16" || self.prop == "C17" {
             // a fast and a slow uplink under a steady stream well above the classifier's floor:
             // the slow one is starved and reported share-weak tick after tick; reloads that change
             // nothing arrive meanwhile (the classifier's history lives in the loop, not in the links)
@@ -1063,6 +1063,11 @@ impl Check for WCheck {
                 l.reorder = 0.0;
                 l.jit_ms = 0;
                 l.lat_ms = if i == 0 { r.range(2, 15) } else { r.range(150, 450) };
+                if self.prop == "C16" {
+                    // loss episodes drive back-offs and the loss latch; both links carry traffic
+                    l.lat_ms = r.range(5, 120);
+                    l.loss_up = *r.pick(&[0.0, 0.02, 0.15, 0.4, 0.7]);
+                }
             }
             let secs = r.range(24, 34);
             let pps = *r.pick(&[40u32, 60, 100]);
@@ -1309,6 +1314,13 @@ pub fn all() -> Vec<Box<dyn Check>> {
         let weight = if prop == "C06" { 300 } else { 6 };
         let w = Box::new(WCheck { prop, runs_quick: wq, runs_thorough: 3000 });
         v.insert(pos, Box::new(Multi { id: prop, parts: vec![first, w], weights: vec![weight, 1] }));
+    }
+    // C16: the controller lives in the event loop too: what the real loop publishes about the soft cap
+    {
+        let pos = v.iter().position(|c| c.id() == "C16").unwrap();
+        let k = v.remove(pos);
+        let w = Box::new(WCheck { prop: "C16", runs_quick: 24, runs_thorough: 1500 });
+        v.insert(pos, Box::new(Multi { id: "C16", parts: vec![k, w], weights: vec![800, 1] }));
     }
     // C17: the classifier's history lives in the event loop: verdicts as published by the real loop
     {
